@@ -13,6 +13,7 @@ LF = ['-DVERIF_LOOP_FLAG']
 GROUPS = [
     dict(name='yield_switch', tu='manager.c', harness='h_yield', mode='H', loop_contracts=True, defs=LF, functions=['fiber_manager_yield', 'fiber_manager_switch_to', 'fiber_manager_do_maintenance', 'fiber_destroy'], timeout=900),
     dict(name='maintenance', tu='manager.c', harness='h_maintenance', mode='H', defs=LF, functions=['fiber_manager_do_maintenance', 'fiber_destroy'], unwind=2, exact_unwind=True),
+    dict(name='maintenance_migrating_unlock', tu='manager.c', harness='h_maintenance_migrating', mode='H', defs=LF, functions=['fiber_manager_do_maintenance', 'fiber_destroy'], unwind=2, exact_unwind=True),
     dict(name='wait_in_mpsc', tu='manager.c', harness='h_wait_mpsc', mode='H', defs=LF, functions=['fiber_manager_wait_in_mpsc_queue', 'fiber_manager_wait_in_mpsc_queue_and_unlock'], unwind=2, exact_unwind=True),
     dict(name='wake_from_mpsc', tu='manager.c', harness='h_wake_mpsc', mode='H', defs=LF, functions=['fiber_manager_wake_from_mpsc_queue'], unwind=6, bounded=True, bound='count <= 2, at most 2 empty pops'),
     dict(name='wait_in_mpmc', tu='manager.c', harness='h_wait_mpmc', mode='H', defs=LF, functions=['fiber_manager_wait_in_mpmc_queue'], unwind=2, exact_unwind=True),
